@@ -98,13 +98,11 @@ class ParticleReleaser(Iterator[pd.DataFrame]):
         else:
             self._df = self._df[self._df.index >= self.start_time]
 
-        # With warm start skip release at start time (already accounted for)
+        # With warm start skip release in the start step (already accounted for)
         if warm_start_file:
             logging.debug("warm start in release")
-            if timer.time_reversal:
-                self._df = self._df[self._df.index < self.start_time]
-            else:
-                self._df = self._df[self._df.index > self.start_time]
+            steps = np.array([timer.time2step(t) for t in self._df.index], dtype=int)
+            self._df = self._df[steps > 0]
 
         # Avoid simulations without particles
         # Cold start and all particles released before start
